@@ -1862,7 +1862,7 @@ Proof.
       split; [constructor|exact Hwl0]. }
   destruct HI as (I1 & I2 & I3 & I4).
   unfold font_valid. rewrite F1, G1, G2, G3, G4, F2.
-  split; [reflexivity|]. split. { rewrite meta_to_write_v3 by reflexivity. apply (meta_wf_norad S CL). }
+  split; [reflexivity|]. split. { rewrite meta_to_write_v3 by reflexivity. apply (meta_wf_norad S CL mc m Hm2). }
   split; [exact I1|]. split; [exact I2|]. split; [exact I3|].
   split; [apply (info_ok_nodup S CL); exact I1|]. split; [apply wf_dict_remove_key; exact I4|].
   split; [apply get_remove_key|].
